@@ -35,12 +35,9 @@ def Kind.className : Kind → String
   | .modules => "modules.Modules"
   | .extraFiles => "extra_files.ExtraFiles"
 
-/-- the version gate of `Rpms.deserialize` (`version_tuple <= (0, 3)` → 0.3 reader) -/
-def rpmsLegacyGate : List Nat := [0, 3]
-/-- the version gate of `Compose.deserialize` (`version_tuple < (0, 3)` → 0.3 reader) -/
-def composeLegacyGate : List Nat := [0, 3]
-/-- the version gate of `Header.deserialize` (`version_tuple >= (1, 1)` → the type is checked) -/
-def headerTypeGate : List Nat := [1, 1]
+/- The version gates are read from the source on every run (`Generated/BuilderFacts.lean`, tools/gen_builders.py):
+   `Gen.GATE_Rpms_deserialize` (`version_tuple <= (0, 3)` → 0.3 reader), `Gen.GATE_Compose_deserialize`
+   (`version_tuple < (0, 3)` → 0.3 reader), `Gen.GATE_Header_deserialize` (`version_tuple >= (1, 1)` → type checked). -/
 
 /-- `".".join(str(i) for i in VERSION)` -/
 def currentVersion : Str := Str.natStr Gen.VERSION.1 ++ '.' :: Str.natStr Gen.VERSION.2
@@ -67,6 +64,14 @@ def lexLt : List Nat → List Nat → Bool
   | a :: as, b :: bs => a < b || (a == b && lexLt as bs)
 
 def lexLe (a b : List Nat) : Bool := !lexLt b a
+
+/-- `version_tuple <op> (a, b)` for a generated gate; an operator the translator did not recognise holds for nothing -/
+def gateHolds (g : String × List Nat) (l : List Nat) : Bool :=
+  if g.1 == "<=" then lexLe l g.2
+  else if g.1 == "<" then lexLt l g.2
+  else if g.1 == ">=" then lexLe g.2 l
+  else if g.1 == ">" then lexLt g.2 l
+  else false
 
 /-- `int(text)` for digits followed by at most one line feed (what `$` lets through) -/
 def pyIntLoose (s : Str) : Option Nat :=
@@ -109,7 +114,7 @@ def headerDeserialize (k : Kind) (doc : PyVal) : Except Err (PyVal × VTuple) :=
         match t with
         | .text => .error .typeError                      -- `("x.y",) >= (1, 1)`: str against int
         | .nums l =>
-          if lexLe headerTypeGate l then
+          if gateHolds Gen.GATE_Header_deserialize l then
             match getItem hdr (lit "type") with
             | .error e => .error e
             | .ok mt => if PyVal.pyEq mt (.str k.headerType) then .ok (ver, t) else .error .valueError
@@ -134,7 +139,7 @@ def composeDeserialize (t : VTuple) (data : PyVal) : Except Err Obj :=
   match t with
   | .text => .error .typeError
   | .nums l =>
-    if lexLt l composeLegacyGate then .error .other          -- 0.3 reader: C05/C15, not modelled here
+    if gateHolds Gen.GATE_Compose_deserialize l then .error .other          -- 0.3 reader: C05/C15, not modelled here
     else
       match getItem data (lit "compose") with
       | .error e => .error e
@@ -198,7 +203,7 @@ def deserialize (k : Kind) (doc : PyVal) : Except Err Manifest :=
   | .error e => .error e
   | .ok (ver, t) =>
     let legacy : Bool := match k, t with
-      | .rpms, .nums l => lexLe l rpmsLegacyGate
+      | .rpms, .nums l => gateHolds Gen.GATE_Rpms_deserialize l
       | _, _ => false
     if legacy then .error .other                               -- `Rpms.deserialize_0_3`: C05/C10, not modelled here
     else
